@@ -4,7 +4,7 @@ namespace Fh.Driver
 open Fh Fh.Model.Srv
 
 /-
-`srvseq C M keep tok tok …` — validates one observed history of the C12 harness against the transition system.
+`srvseq C M flags tok tok …` (flags: bit 0 KeepHijackedConns, bit 1 tiny MaxIdleWorkerDuration = the cleaner is active) — validates one observed history of the C12 harness against the transition system.
 
 Each token is `<op>|<observation>`:
   op   S            a `Serve` call starts (pool 0)            L        its listener is closed
@@ -15,6 +15,7 @@ Each token is `<op>|<observation>`:
        R<k> Q<k>    handler of connection k released (keep-alive) / next request sent      (no counter changes)
        X<k> C<k>    client closes connection k / handler answers `Connection: close`
        H<k>         handler hijacks          J<k>  hijack handler returns       K<k>  owner closes the kept connection
+       I            an idle period (longer than MaxIdleWorkerDuration)
   observation  `<outcome>,<conc>,<GetOpen>,<open>,<ip1>,<ip2>,<ip3>`  outcome: A admitted, 4 = 429, 5 = 503,
                E served-and-closed, - nothing to report
 
@@ -107,32 +108,58 @@ def srvFault (op : Bytes) : Option Bool :=
   | kind :: _ :: ipb => if kind = 79 ∨ kind = 66 then some (ipb.getLast? = some 102) else none
   | _ => none
 
-def srvRun : State → List Bool → List Bytes → Nat → String
-  | s, _, [], _ =>
+/-- `clean` retires every idle worker of pool 0 (they are told to stop; `workersCount` still counts them) -/
+def srvRetire : Nat → State → State
+  | 0, s => s
+  | fuel + 1, s => match step s (.cleanIdle 0) with
+    | some s' => srvRetire fuel s'
+    | none => s
+
+/-- `j` retired workers of pool 0 leave `workerFunc` -/
+def srvExit : Nat → State → State
+  | 0, s => s
+  | j + 1, s => match step s (.workerExit 0) with
+    | some s' => srvExit j s'
+    | none => s
+
+/-- the states the server may be in, given the last validated one: steps whose moment the harness cannot observe
+    (`wp.release` after a close; with a tiny MaxIdleWorkerDuration also the cleaner retiring idle workers and the
+    retired workers leaving) may or may not have happened.  Least advanced first. -/
+def srvCandidates (s : State) (cleaner : Bool) : List State :=
+  let t := srvSettle s
+  if cleaner then
+    [s, t, srvRetire 8 s, srvRetire 8 t] ++ (List.range 8).map (fun j => srvExit (j + 1) t) ++
+      (List.range 8).map (fun j => srvExit (j + 1) (srvRetire 8 t))
+  else [s, t]
+
+def srvTry (cands : List State) (faults : List Bool) (op : Bytes) (want : String) : Option State :=
+  cands.findSome? fun c =>
+    match srvApply c faults op with
+    | some (s1, o) => if s!"{o},{srvSnap s1}" = want then some s1 else none
+    | none => none
+
+def srvRun : State → Bool → List Bool → List Bytes → Nat → String
+  | s, _, _, [], _ =>
     let s := srvSettle s
     let quiet := s.conns.all fun c => (match c.phase with | .done _ => true | _ => false) && c.closed && c.hj != .running
     s!"ok {srvSnap s} quiet={if quiet then 1 else 0} serving={servingAll s} pools={s.pools.length}"
-  | s, faults, tok :: rest, n =>
+  | s, cleaner, faults, tok :: rest, n =>
     match srvSplit 124 tok with
     | [op, obs] =>
       let want := srvStr obs
       let faults' := match srvFault op with | some f => faults ++ [f] | none => faults
-      let try1 := srvApply s faults op
-      match try1 with
-      | some (s1, o) =>
-        if s!"{o},{srvSnap s1}" = want then srvRun s1 faults' rest (n + 1)
-        else
-          match srvApply (srvSettle s) faults op with
-          | some (s2, o2) =>
-            if s!"{o2},{srvSnap s2}" = want then srvRun s2 faults' rest (n + 1)
-            else s!"mismatch@{n} op={srvStr op} observed={want} model={o},{srvSnap s1} model-after-release={o2},{srvSnap s2}"
-          | none => s!"mismatch@{n} op={srvStr op} observed={want} model={o},{srvSnap s1}"
+      if op = [73] then  -- I: an idle period; nothing observable changes
+        if s!"-,{srvSnap s}" = want then srvRun s cleaner faults' rest (n + 1)
+        else s!"mismatch@{n} op=I observed={want} model=-,{srvSnap s}"
+      else
+      match srvTry (srvCandidates s cleaner) faults op want with
+      | some s1 => srvRun s1 cleaner faults' rest (n + 1)
       | none =>
-        match srvApply (srvSettle s) faults op with
-        | some (s2, o2) =>
-          if s!"{o2},{srvSnap s2}" = want then srvRun s2 faults' rest (n + 1)
-          else s!"mismatch@{n} op={srvStr op} observed={want} model-after-release={o2},{srvSnap s2}"
-        | none => s!"not-enabled@{n} op={srvStr op}"
+        let show1 := fun (c : State) => match srvApply c faults op with
+          | some (s1, o) => s!"{o},{srvSnap s1}"
+          | none => "not-enabled"
+        s!"mismatch@{n} op={srvStr op} observed={want} model={show1 s} model-after-release={show1 (srvSettle s)}" ++
+          (if cleaner then s!" model-after-retire={show1 (srvRetire 8 (srvSettle s))} model-after-exit={show1 (srvExit 8 (srvRetire 8 (srvSettle s)))}" else "")
     | _ => "bad-token"
 
 def opsServerCounters (op : String) (a : List Bytes) : Option String :=
@@ -141,6 +168,6 @@ def opsServerCounters (op : String) (a : List Bytes) : Option String :=
     let c ← natOfDec? c
     let m ← natOfDec? m
     let keep ← natOfDec? keep
-    pure (srvRun (State.init ⟨c, m, keep != 0⟩) [] toks 0)
+    pure (srvRun (State.init ⟨c, m, keep % 2 != 0⟩) (keep / 2 % 2 != 0) [] toks 0)
   | _, _ => none
 end Fh.Driver
